@@ -58,3 +58,24 @@ func WalkRSLGit(dir string) ([]Entry, error) {
 	}
 	return res, nil
 }
+
+// CommitMessageGit returns the raw message of a commit ("" on error).
+func CommitMessageGit(dir, id string) string {
+	raw, err := gitOut(dir, "cat-file", "commit", id)
+	if err != nil {
+		return ""
+	}
+	if i := strings.Index(raw, "\n\n"); i >= 0 {
+		return raw[i+2:]
+	}
+	return ""
+}
+
+// RefTipGit returns the tip of ref ("" when absent).
+func RefTipGit(dir, ref string) string {
+	out, err := gitOut(dir, "rev-parse", "--verify", "-q", ref)
+	if err != nil {
+		return ""
+	}
+	return strings.TrimSpace(out)
+}
